@@ -96,3 +96,12 @@ Theorem C20_plain_needed_refuted :
   match_filter (paren [99; 110; 61; 97; 42; 98]) [99; 110; 61; 97; 42; 98] = false.
 Proof. exact match_star_refuted. Qed.
 Print Assumptions C20_plain_needed_refuted.
+
+(* reading has no memory: a search repeated after any number of binds,
+   searches and Users() probes returns what it returned the first time *)
+Theorem C20_search_repeatable : forall eqfold replfix d reads base flt,
+  forallb read_only reads = true ->
+  snd (dstep eqfold replfix (fst (drun eqfold replfix d (DSearch base flt :: reads))) (DSearch base flt)) =
+  snd (dstep eqfold replfix d (DSearch base flt)).
+Proof. exact search_repeatable. Qed.
+Print Assumptions C20_search_repeatable.
